@@ -109,7 +109,8 @@ Reversed(s, ch) == /\ ~ch.full /\ SrvIdx(s, ch.s) # {} /\ SrvIdx(s, ch.e) # {}
 (* ignored - never stored; requests on it answer with an error.  A document is *)
 (* identified by the path its URI maps to.                                     *)
 HasPath(d) == d \notin {"u", "h", "g"}
-InPkg(d) == d \in {"d1", "d2", "d3", "e", "n"}     \* "n": a file: URI whose percent-encoded path is not valid UTF-8 (%FF): a file like any other
+IsPipe(d) == d = "p"      \* a named pipe with a module's name in the package's source directory: not a regular file
+InPkg(d) == d \in {"d1", "d2", "d3", "e", "n", "p"}     \* "n": a file: URI whose percent-encoded path is not valid UTF-8 (%FF): a file like any other
 Canon(d) == IF d = "q" THEN "d3" ELSE d
 DiskInit(d) == d \in {"d1", "d2"}
 DiskText(d) == IF d = "d1" THEN <<"a", "nl", "a">> ELSE <<"a">>
@@ -276,6 +277,10 @@ M_OpenStore ==
           /\ alive' = ~(PreFixF9 /\ cur.k = "open")
           /\ vfsW' = FALSE /\ mpc' = "idle" /\ cur' = Nil
           /\ UNCHANGED <<vfsText, vfsVer, opened, pending, loaded, diagTodo>>
+     ELSE IF cur.k = "wchg" /\ IsPipe(d) /\ ~opened[d]
+     THEN \* not a regular file: the event is ignored (reading it would never return) - the stored text, if any, stays
+          /\ vfsW' = FALSE /\ mpc' = "idle" /\ cur' = Nil
+          /\ UNCHANGED <<vfsText, vfsVer, opened, pending, loaded, alive, diagTodo>>
      ELSE IF cur.k = "wchg" /\ (opened[d] \/ ~onDisk[d])
      THEN \* opened: skipped; vanished: treated as DELETED (remove_uri; applied like a deletion - before the F44 repair it was not)
           LET rm == ~opened[d] /\ vfsText[d] # Absent
